@@ -133,12 +133,18 @@ def run_case(case):
         event_ids[id(ev)] = current["tag"]
         keep.append(ev)
     keep = []
-    client.onevent(callback=tagger)
+    # "tagger": "last" - the waits are the client's very FIRST registrations (an application that only ever waits), the
+    # observer registers after them; "first" (default) - the application registered a listener before it waits
+    tagger_last = case.get("tagger") == "last"
+    if not tagger_last:
+        client.onevent(callback=tagger)
 
     async def main():
         for t, msgs in plan:
             loop.call_at(t, deliver, msgs)
         tasks = [loop.create_task(one_wait(i, w)) for i, w in enumerate(case["waits"])]
+        if tagger_last:
+            loop.call_soon(lambda: client.onevent(callback=tagger))      # runs after the first step of every wait
         await asyncio.sleep(case["horizon"] + 0.5)
         pending = [not t.done() for t in tasks]
         ncb = len(client.callbacks) - 1
@@ -202,6 +208,14 @@ def run_impl(case, outcome):
 
 
 def gen_cases(rng, tier):
+    """every third case (and every case with several waits, a second time) with the waits as the client's first registrations"""
+    for n, case in enumerate(_gen_cases(rng, tier)):
+        yield case
+        if len(case["waits"]) > 1 or n % 3 == 0:
+            yield dict(case, tagger="last")
+
+
+def _gen_cases(rng, tier):
     thorough = tier == "thorough"
     H = 9
     kinds = [("check", "value"), ("expect", "value"), ("initial", "value"), ("check", "state"), ("expect", "state"), ("initial", "state")]
